@@ -55,7 +55,7 @@ CLAIMED = {
    "Trusted: the exact reference law computed in the check; statistical decisions use the Chernoff-KL rule with a total false-alarm budget of 1e-9 per invocation (fixed default seed => outcome is a fixed function of the code); biases below the resolution reported in the evidence are invisible."),
  "C12": ("rngsim", "exploration", "DESIGN §5 C12",
    "seeded many-run statistical experiments through the rng seam: observed frequencies of flips, UMAD insertions/deletions (incl. the four child patterns of a one-gene parent), crossover origins, random bits and gene kinds compared with the configured probabilities by the Chernoff-KL rule",
-   "Purely distributional property => sampling evidence with an explicit, rigorous error budget; 216 experiments x 3*10^5 (quick) / 5*10^6 (thorough) trials (fewer for genomes of 10^4..10^7 genes, more for instruction sets of 10^5..10^6).",
+   "Purely distributional property => sampling evidence with an explicit, rigorous error budget; 222 experiments x 3*10^5 (quick) / 5*10^6 (thorough) trials (fewer for genomes of 10^4..10^7 genes, more for instruction sets of 10^5..10^6).",
    "Trusted: the exact reference law computed in the check; statistical decisions use the Chernoff-KL rule with a total false-alarm budget of 1e-9 per invocation (fixed default seed => outcome is a fixed function of the code); biases below the resolution reported in the evidence are invisible."),
  "C13": ("rngsim", "exploration", "DESIGN §5 C13",
    "deterministic simulation through the rng seam (every weight vector over {0,1,2,5} of <= 4 members enumerated; fixed and seeded distribution experiments) with marker member selectors: exact clauses per seeded/adversarial run (exactly one delegate, never a weight-0 member, zero-weight errors, build-time overflow with the right fields) plus seeded statistical decision of each member's use frequency against w_i/sum over tree shapes, with_item_and_weight chains and DynWeighted lists",
